@@ -42,6 +42,11 @@ CHECKS = {
          "Held on every explored sequence for all four registered drivers: depth 2 (quick) / 3 (thorough) exhaustive over 27 operations plus 300 / 20000 random sequences of length 10-40 per driver, about 80 observations after every operation; 100 / 3000 mutation histories and 200 / 5000 traversals replayed per driver. Keys over a 4-byte alphabet with shared prefixes, empty values included.",
          "Trusted: the sorted-map model (40 lines) and the documented SeekReverse convention (largest key <= k, then descending). Rollback on error, the empty key and Key()/Value() on an invalid iterator are outside the property.",
          "5/C10"),
+ "C04": ("fault_enumeration",
+         "fault injection with a runtime invariant monitor: a fault-injecting kvi.KVInterface decorator passed to kvgraph.NewKVGraph counts the top-level writes of every mutating call and interrupts the call before each of them in turn; after closing and reopening the store a structural monitor checks index/adjacency invariants over the public read interface; clean restarts are inserted at every position of random mutation histories and checked against the abstract-graph model",
+         "The crash points of every call of the 39-call alphabet in 4 pre-states are enumerated completely (every k in 1..W) and I1-I4 held after each; every restart position of 12 / 400 random histories held against the model, including label-indexed lookups of elements written after the reopen. Thorough additionally SIGKILLs a real child between writes for a third of the calls.",
+         "Assumes each top-level KV write is atomic and durable once it returns (the property says so); crash = stop before write k, close, reopen. Trusted: the FaultKV decorator (100 lines) and the invariant checker gq/snapshot.go.",
+         "5/C04"),
 }
 
 NOT_YET = "check not built yet in this session (design in DESIGN.md section 5); claimed once the monitor exists and is silent on the unchanged tree"
